@@ -187,6 +187,9 @@ io_status_t MiniPacketTunnelIOGateway :: DoOutputImplementation(uint32 maxBytes)
                   memcpy(defBuf()->GetBuffer(), writeBuf, PACKET_HEADER_SIZE);
                   writeBuf  = defBuf()->GetBuffer();
                   writeSize = defBuf()->GetNumBytes();
+
+                  // Make sure the header says "deflated", since a header that we held over from an earlier (failed) send-attempt may have been patched to say otherwise, below
+                  DefaultEndianConverter::Export(_sendPacketIDCounter|(((uint32)_sendCompressionLevel)<<24), &writeBuf[2*sizeof(uint32)]);
                }
                else defBuf.Reset();
             }
